@@ -418,8 +418,24 @@ pub fn exec_tree(t: &Tables, v: &V) -> Option<Sx> {
             record(&Distribution::<Duration>::from_iter(durs(vs)?)),
         // primitives with a unit
         With(inner, to) => match &**inner {
-            U(n) => t.prim_fn.get(to.as_str())?(&Prim::U(*n)),
-            F(x) => t.prim_fn.get(to.as_str())?(&Prim::F(*x)),
+            U(n) => {
+                // the narrower counter types and a bare Observation must behave exactly like u64
+                let f = t.prim_fn.get(to.as_str())?;
+                let r = f(&Prim::U(*n));
+                let mut same = f(&Prim::Obs(Observation::Unsigned(*n))) == r;
+                if *n <= u32::MAX as u64 { same &= f(&Prim::U32(*n as u32)) == r; }
+                if *n <= 1 { same &= f(&Prim::Bool(*n == 1)) == r; }
+                if !same { return Some(sx::tag(98, vec![sx::b("u64 / u32 / bool / Observation disagree")])); }
+                r
+            }
+            F(x) => {
+                let f = t.prim_fn.get(to.as_str())?;
+                let r = f(&Prim::F(*x));
+                let mut same = f(&Prim::Obs(Observation::Floating(*x))) == r;
+                if ((*x as f32) as f64).to_bits() == x.to_bits() { same &= f(&Prim::F32(*x as f32)) == r; }
+                if !same { return Some(sx::tag(98, vec![sx::b("f64 / f32 / Observation disagree")])); }
+                r
+            }
             Dist(e, vs) if e == "None" && !vs.is_empty() && vs.iter().all(|x| matches!(x, U(_))) =>
                 t.prim_fn.get(to.as_str())?(&Prim::DistU(vs.iter().map(|x| if let U(n) = x { *n } else { 0 }).collect())),
             Dur(s, n) => t.dur_fn.get(to.as_str())?(&DurShape::One(Duration::new(*s, *n))),
